@@ -23,8 +23,46 @@ def check(tier="quick", seed=0, workers=None, only=None):
     return {"level": "model_checking", "coverage": cov, "violations": viols, "assumptions": ASSUMPTIONS}
 
 
+def thread_scenarios(tier):
+    """The sync pool under real threads (pre-emption bounded, see mc/props/c08.py), judged by the connection-limit monitor only."""
+    from .c08 import S
+    quick = tier == "quick"
+    P = dict(prefix="C04")
+    out = [
+        # a request whose connect is refused leaves through the failure path while another is queued and a third arrives
+        (S("h11", ["fail:x:g1", "req:a", "req:b"], max_connections=1, granularity="pool-line", **P), 1 if quick else 2),
+        (S("h11", ["fail:x:g1", "req:a", "req:b"], max_connections=1, granularity="sync", **P), 2 if quick else 3),
+        (S("h11", ["fail:x:g1", "fail:y", "req:a"], max_connections=1, granularity="pool-line", **P), 1 if quick else 2),
+        (S("h11", ["req:a", "req:b", "req:c"], max_connections=2, granularity="sync", **P), 2 if quick else 3),
+        (S("h11", ["req:a", "req:b"], max_connections=1, granularity="pool-line", **P), 2),
+        (S("h11", ["req:a:w", "req:b", "req:c"], max_connections=1, granularity="pool-line", **P), 1 if quick else 2),
+        (S("h11", ["hold:a", "req:b", "fail:x:g1"], max_connections=2, granularity="sync", **P), 2 if quick else 3),
+        (S("h2pk", ["req:a:w", "req:a", "req:b"], max_connections=1, granularity="sync", **P), 2),
+    ]
+    if not quick:
+        out += [(S("h11", ["fail:x:g1", "req:a", "req:b"], max_connections=1, granularity="line", **P), 1),
+                (S("tunnel", ["fail:x:g1", "req:a", "req:b"], max_connections=1, granularity="sync", **P), 2),
+                (S("h11", ["req:a", "req:b", "req:c", "req:a"], max_connections=2, granularity="sync", **P), 2)]
+    return out
+
+
 def extra(tier, seed, workers, only):
-    return None, {}
+    import multiprocessing as mp
+    import os
+    scs = thread_scenarios(tier)
+    if only:
+        scs = [x for x in scs if only in x[0][1] + x[0][2]]
+    total = engine.Stats(bound=None)
+    per = []
+    with mp.get_context("fork").Pool(workers or min(16, os.cpu_count() or 1)) as pool:
+        for spec, bound in scs:
+            st = engine.explore(spec, bound=bound, merge=False, pool=pool, seed=seed, max_violations=100,
+                                max_execs=150000 if tier == "quick" else 1000000, max_seconds=40 if tier == "quick" else 240, recheck=1)
+            per.append({"scenario": spec[2][:160], "preemption_bound": bound, "executions": st.evaluations, "complete": not st.caps, "caps": st.caps})
+            total.merge_from(st)
+            if len(total.samples) < 3:
+                total.samples += st.samples[:1]
+    return total, {"world": "real threads, baton scheduler, every schedule with at most `preemption_bound` pre-emptions (stateless)", "thread_scenarios": per}
 
 
 RULE = ("explicit-state search over all orders of external events (arrivals, I/O completions incl. early ones, releases, timers; "
